@@ -139,6 +139,19 @@ def run(tier, seed):
         got = set(t.final_measurement.metrics.keys())
         if not set(names) <= got:
           viol('%s: a completed trial lacks a metric of the problem statement' % name.split('(')[0], {'experimenter': name, 'metrics': sorted(got), 'expected': names})
+    # a suggestion is a mapping from names to values: the order in which its parameters were inserted must not matter
+    if 'noisy' not in name and pts and len(pts[0]) > 1:
+      p = pts[0]
+      try:
+        a = mvals(evalv(ex, dict(p)))
+        for how, order in (('reversed', list(reversed(list(p)))), ('sorted by name', sorted(p))):
+          c = mvals(evalv(ex, {k: p[k] for k in order}))
+          if (a is None) != (c is None) or (a is not None and any(not (a[m] == c[m] or (a[m] != a[m] and c[m] != c[m])) for m in a)):
+            viol('%s: the value of a suggestion depends on the order in which its parameters were inserted (%s)' % (name.split('(')[0], how),
+                 {'experimenter': name, 'point': p, 'in_search_space_order': a, 'reordered': c})
+            break
+      except Exception as e:  # pylint: disable=broad-except
+        viol('%s.evaluate raised %s on a reordered suggestion' % (name.split('(')[0], type(e).__name__), {'experimenter': name, 'point': p, 'error': str(e)[:300]})
     return ps
 
   goal_cases, perm_cases, perm_objs, shift_cases, shift_objs = [], [], [], [], []
